@@ -348,11 +348,10 @@ inductive OffOutcome (α : Type) where
   | panic
   deriving Repr, DecidableEq
 
-/-- `WriterOffline.Close` when `segIDs` is empty. PINNED TREE: `s.segIDs[0]` panics (index out of
-range). (The proposed repair persists an empty snapshot as epoch 0:
-`.ok { snapshotEpoch := 0, segments := [], segFiles := files }`; with that definition
-`offline_equiv` below covers the empty corpus and `offline_empty_panics` must be dropped.) -/
-def closeEmpty {α} (_files : List Nat) : OffOutcome α := .panic
+/-- `WriterOffline.Close` when `segIDs` is empty: an empty snapshot is persisted as epoch 0 (no
+segment), so the empty index can be opened. -/
+def closeEmpty {α} (files : List Nat) : OffOutcome α :=
+  .ok { snapshotEpoch := 0, segments := [], segFiles := files }
 
 /-- `OfflineWriter.Close`: flush a partial batch, `doMerge`, snapshot named after `segIDs[0]` -/
 def OffW.close {α} (mergeMax : Nat) (w : OffW α) : OffOutcome α :=
